@@ -81,6 +81,18 @@ class MapDecoder:
                 elif it == ("field", ("variant", ("param", 0), "Map"), "0"):
                     src = "match Map"
                 if src and cfg.in_loop(bb) and cfg.in_loop(bb)[0] == header:
+                    # the entries must be iterated as received: `m.dedup_by(..)` / `m.sort..` / `m.retain(..)` between the
+                    # extraction of the map and the loop changes what the decoder sees (DESIGN 3.18)
+                    raw = recv[1] if recv[0] == "ref" else recv
+                    edits = []
+                    while is_call(raw, INTO_ITER):
+                        if len(raw) > 3 and raw[3] and raw[3][0] == fn.key:
+                            ib = raw[3][1]
+                            edits += pv.tampered(fn.blocks[ib]["term"]["args"][0], ib, "term")
+                        raw = raw[2][0]
+                    if edits:
+                        self.problem = "the map's entries are edited before they are iterated: " + "; ".join(sorted(set(edits)))
+                        return
                     self.loop = (header, body)
                     self.next_bb = bb
                     self.next_term = pv.call_term(bb)
